@@ -51,7 +51,19 @@ def gen_pool(rng, m):
             for s in pr["streams"]:
                 if rng.random() < 0.35:
                     s["zone"] = rng.choice(inner)
+        if rng.random() < 0.3:
+            # option values that the preparation step normalises (clamps) before use, and a few ordinary switches
+            pr["options"] = dict(rng.sample([("DT_CONT", -2.0), ("DT_PHASE_CHANGE", 0.0), ("ANNUAL_OP_TIME", 0), ("DT_CONT", 10.0),
+                                             ("DO_BALANCED_CC", True), ("DO_TURBINE_WORK", True), ("P_TURBINE_BOX", 300.0),
+                                             ("DT_PHASE_CHANGE", -1.0), ("DO_VERTICAL_GCC", True)], k=rng.choice([1, 2, 3])))
         pool.append(pr)
+    # always present: an analysis whose options are clamped by the preparation step, and a plain problem that needs the
+    # generated default utilities (no DT_CONT option, no utilities): a write to shared state shows in the second one
+    a = P.gen_problem(rng, labels=["N"], with_tree=False, util_kind="none")
+    a["options"] = {"DT_CONT": -2.0, "DT_PHASE_CHANGE": rng.choice([0.0, -1.0, 0.1])}
+    b = P.gen_problem(rng, labels=["M", "K"], with_tree=False, util_kind="none")
+    b["options"] = {}
+    pool += [a, b]
     return pool
 
 
